@@ -5,10 +5,12 @@ use std::io::{self, BufRead, Write};
 use std::panic;
 
 mod bitmap;
+mod grid;
 
 fn run_case(fam: &str, args: &[i128]) -> Vec<i128> {
     match fam {
         "bitmap" => bitmap::run(args),
+        "grid" => grid::run(args),
         _ => panic!("unknown family {fam}"),
     }
 }
@@ -35,7 +37,7 @@ fn main() {
                 let s: Vec<String> = v.iter().map(|x| x.to_string()).collect();
                 writeln!(out, "{}", s.join(" ")).unwrap();
             }
-            Err(_) => writeln!(out, "PANIC").unwrap(),
+            Err(_) => writeln!(out, "-999").unwrap(),
         }
         out.flush().unwrap();
     }
